@@ -18,6 +18,11 @@
 //   `# T<k> call quit|startLoop|destroy` / `# T<k> ret …` around every API call (`ret startLoop ok|null|other`), `# T<k> leave <id>` at the end of
 //   a task body (its beginning is the event `T<k> exec <id>`).
 //
+// Switch points of the scheduler beyond detsched's own (mutex, condition, named points, poll, create/join/exit): after
+// every wake-up write (`harness:afterWakeup`) and immediately before the read of the wake-up descriptor
+// (`harness:beforeWakeread`).  Both are silent — no event line, the `follow` cursor does not move — so only a raw
+// `schedule` can put another thread there; the model's `wakeread` step is the two halves together.
+//
 // Which loop an op addresses: plain mode → the one loop; elt mode → T0 uses the pointer returned by
 // startLoop() (null before: the op is skipped), every other thread (the loop thread: init callback and
 // task bodies) uses the loop recorded in the init callback.
@@ -204,6 +209,14 @@ ssize_t write(int fd, const void* buf, size_t n) {
 
 ssize_t read(int fd, void* buf, size_t n) {
   if (fd < 0 || fd != g_wakeFd || g_finished || g_destroyed) return realRead(fd, buf, n);
+  // A switch point of its own immediately before the eventfd read: whatever handleRead() does ahead of the read
+  // (nothing that another thread can see, in the code as it is) and the read itself become two steps, so that a
+  // complete foreign queueInLoop()+wakeup() can be placed between them.  The point is silent (no event line, the
+  // `follow` cursor stays): the model's single `wakeread` step is the composition of the two, which is exact as long
+  // as the first half touches nothing shared — the loop thread could have been preempted at `loop:afterPoll` just as
+  // well.  Only a raw `schedule` can choose another thread here; a `follow` chooser keeps wanting the same thread.
+  if (ds::self() >= 0) ds::yield("harness:beforeWakeread");
+  if (g_finished || g_destroyed) return realRead(fd, buf, n);
   say("wakeread");
   return realRead(fd, buf, n);
 }
